@@ -96,7 +96,11 @@ Definition lookup (cls name : string) : option fn :=
   find (fun f => (fn_class f =? cls) && (fn_name f =? name)) Effects.table.
 Definition pure_fn (cls name : string) : bool :=
   match lookup cls name with
-  | Some f => match fn_effects f with [] => negb (fn_always_raises f) | _ => false end
+  | Some f =>
+      (* no effect other than in-place changes of objects allocated in the same call (a result built up in a
+         local dict / list): nothing that existed before the call is touched *)
+      forallb (fun e => match e with Mutate (KFresh _) _ => true | _ => false end) (fn_effects f) &&
+      negb (fn_always_raises f)
   | None => false
   end.
 Definition raising_fn (cls name : string) : bool :=
